@@ -1,6 +1,239 @@
-import HranoModel.Model.Options
-import HranoModel.Model.Sink
-import HranoModel.Model.Chan
-/-! C07 property theorems (statements only in this file; helper lemmas live in Lemmas/) -/
+import HranoModel.Props.C12
+/-!
+C07 — all reports agree on the same quantities.
+
+Property theorems only.  Each theorem relates two *different* functions of the model (two reporters) on
+the same book and days; the shared vocabulary is `Spec.posOf / negOf / sumOf` over the contributions
+(`quantity × resolved element, or the food itself`).  Figures are exact rationals here; the C07 check
+evaluates the same relations between the real program's outputs.
+Still checked only by the correspondence (no theorem yet): quantity = balance leaf amounts (needs the tree
+lemma of C03), stats' day distances.
+-/
 namespace Hrano.C07
+open Hrano Hrano.App Hrano.Spec Hrano.Report Hrano.C12
+
+/-- the accumulator behind one day's register totals -/
+def dayAcc (db : Book) (d : LogDay) : Accumulator :=
+  d.elements.foldl (fun a e => accumulate a (contributions db e)) []
+
+theorem dayAcc_is_register (db : Book) (cfg : RCfg) (d : LogDay) (h : cfg.totals = true) :
+    (reportItem db cfg d).2 = some (totalsOf (dayAcc db d)) := by
+  simp [reportItem, h, dayAcc]
+
+def sumOver (f : LogDay → Q) : List LogDay → Q
+  | [] => 0
+  | d :: ds => f d + sumOver f ds
+
+/-- **period totals = sum of the register's daily totals**, for every element and both registers -/
+theorem totals_eq_sum_daily (db : Book) (days : List LogDay) (n : Bytes) :
+    Accumulator.posAt (totalsAcc db days) n = sumOver (fun d => Accumulator.posAt (dayAcc db d) n) days
+    ∧ Accumulator.negAt (totalsAcc db days) n = sumOver (fun d => Accumulator.negAt (dayAcc db d) n) days := by
+  induction days with
+  | nil => simp [totalsAcc, allElements, sumOver, Accumulator.posAt, Accumulator.negAt, Accumulator.find]
+  | cons d ds ih =>
+    have h := totals_additive db [d] ds n
+    have hd : totalsAcc db [d] = dayAcc db d := by simp [totalsAcc, dayAcc, allElements]
+    simp only [List.singleton_append, hd] at h
+    simp only [sumOver]
+    rw [h.1, h.2, ih.1, ih.2]
+    exact ⟨rfl, rfl⟩
+
+/-- filtering the contributions down to one element does not change that element's sums -/
+theorem posOf_filter (x : Bytes) : ∀ cs : Elements, posOf x (cs.filter (fun c => c.name == x)) = posOf x cs
+  | [] => rfl
+  | c :: cs => by
+    by_cases h : (c.name == x) = true
+    · simp [List.filter_cons, h, posOf, posOf_filter x cs]
+    · have h' : (c.name == x) = false := by simpa using h
+      simp [List.filter_cons, h', posOf, posOf_filter x cs, Rat.zero_add]
+
+theorem negOf_filter (x : Bytes) : ∀ cs : Elements, negOf x (cs.filter (fun c => c.name == x)) = negOf x cs
+  | [] => rfl
+  | c :: cs => by
+    by_cases h : (c.name == x) = true
+    · simp [List.filter_cons, h, negOf, negOf_filter x cs]
+    · have h' : (c.name == x) = false := by simpa using h
+      simp [List.filter_cons, h', negOf, negOf_filter x cs, Rat.zero_add]
+
+/-- **the single-element register row of a day shows that day's register totals for the element** -/
+theorem single_row_eq_day_totals (db : Book) (x : Bytes) (d : LogDay) :
+    Accumulator.posAt (accumulate [] (singleContribs db x d)) x = Accumulator.posAt (dayAcc db d) x
+    ∧ Accumulator.negAt (accumulate [] (singleContribs db x d)) x = Accumulator.negAt (dayAcc db d) x := by
+  have hday : dayAcc db d = accumulate [] (dayContributions db d.elements) :=
+    foldl_accumulate_flatten (contributions db) d.elements []
+  have hsingle : singleContribs db x d = (dayContributions db d.elements).filter (fun c => c.name == x) := by
+    simp only [singleContribs, dayContributions]
+    induction d.elements with
+    | nil => rfl
+    | cons e es ih => simp [List.filter_append, ih]
+  rw [hday, hsingle, posAt_accumulate, posAt_accumulate, negAt_accumulate, negAt_accumulate, posOf_filter, negOf_filter]
+  exact ⟨rfl, rfl⟩
+
+def total : Elements → Q
+  | [] => 0
+  | e :: es => e.value + total es
+
+theorem foldl_total (es : Elements) : ∀ s : Q, es.foldl (fun s e => s + e.value) s = s + total es := by
+  induction es with
+  | nil => intro s; simp [total, Rat.add_zero]
+  | cons e es ih => intro s; simp only [List.foldl, total]; rw [ih]; grind
+
+theorem total_append (a b : Elements) : total (a ++ b) = total a + total b := by
+  induction a with
+  | nil => simp [total, Rat.zero_add]
+  | cons e es ih => simp [total, ih, Rat.add_assoc]
+
+/-- what one logged food contributes to the single-element balance adds up to its contribution to element `x` -/
+theorem single_food_total (db : Book) (x : Bytes) (e : Element) :
+    total (balanceSingleOf db x e) = sumOf x (contributions db e) := by
+  unfold contributions balanceSingleOf
+  cases db.lookup e.name with
+  | none =>
+    by_cases h : (e.name == x) = true <;> simp [h, total, sumOf, Rat.add_zero]
+  | some els =>
+    simp only
+    induction els with
+    | nil => rfl
+    | cons r rs ih =>
+      by_cases h : (r.name == x) = true
+      · simp [List.filter_cons, h, total, sumOf, ih]
+      · have h' : (r.name == x) = false := by simpa using h
+        simp [List.filter_cons, h', sumOf, ih, Rat.zero_add]
+
+/-- **the single-element balance grand total is the period total of that element** (positive plus negative
+    register of `report totals`), a directly logged element counting as itself -/
+theorem bal_single_total_eq_period_total (db : Book) (x : Bytes) (days : List LogDay) :
+    (balanceSingleElements db x days).foldl (fun s e => s + e.value) 0
+      = Accumulator.posAt (totalsAcc db days) x + Accumulator.negAt (totalsAcc db days) x := by
+  have key : totalsAcc db days = accumulate [] (periodContributions db days) :=
+    foldl_accumulate_flatten (contributions db) (allElements days) []
+  rw [key, posAt_accumulate, negAt_accumulate, foldl_total]
+  simp only [Accumulator.posAt, Accumulator.negAt, Accumulator.find, List.find?, Rat.zero_add]
+  rw [pos_add_neg]
+  simp only [balanceSingleElements, periodContributions, dayContributions]
+  induction allElements days with
+  | nil => rfl
+  | cons e es ih =>
+    simp only [List.map_cons, List.flatten_cons, total_append, sumOf_append, ih]
+    rw [single_food_total]
+
+/-- **quantities per food = sums of the CSV log rows** (the CSV log lists each day's merged foods) -/
+theorem quantity_eq_sum_csv_rows (days : List LogDay) (n : Bytes) :
+    Elements.valueAt (quantityAcc days) n = sumOver (fun d => sumOf n d.elements) days := by
+  have key : Elements.valueAt (quantityAcc days) n = sumOf n (allElements days) := by
+    have := mergeDay_value (allElements days) n
+    simpa [quantityAcc, mergeDay] using this
+  have hsum : ∀ ds : List LogDay, sumOf n (allElements ds) = sumOver (fun d => sumOf n d.elements) ds := by
+    intro ds
+    induction ds with
+    | nil => rfl
+    | cons d ds ih =>
+      have : allElements (d :: ds) = d.elements ++ allElements ds := by simp [allElements]
+      rw [this, sumOf_append, ih]
+      rfl
+  rw [key, hsum]
+
+/-- summary and register render the same report item of the day (same foods, same totals) -/
+theorem summary_eq_register_day (db : Book) (cfg : RCfg) (d : LogDay) :
+    ∃ item, reportItem db cfg d = item
+      ∧ renderSummary cfg d db = (Date.format cfg.dateLayout d.date ++ [32, 58]
+          ++ (match item.2 with
+              | none => []
+              | some ts => (ts.map (fun t => [10] ++ fmtVal cfg.color t.pos ++ [32, 58, 32] ++ t.name)).flatten)
+          ++ [10] ++ dashes 12
+          ++ (item.1.map (fun el => [10] ++ fmtVal cfg.color el.value ++ [32, 58, 32] ++ el.name)).flatten
+          ++ [10]) :=
+  ⟨_, rfl, rfl⟩
+
+theorem unresolved_aux (db : Book) : ∀ (es : Elements) (a : Elements),
+    (Elements.names a).Nodup → (∀ n ∈ Elements.names a, db.lookup n = none) →
+    (∀ n, n ∈ Elements.names (es.foldl (fun (a : Elements) e =>
+          if (db.lookup e.name).isSome then a else if a.any (·.name == e.name) then a else a ++ [⟨e.name, 0⟩]) a)
+        ↔ (n ∈ Elements.names a ∨ (n ∈ Elements.names es ∧ db.lookup n = none)))
+    ∧ (Elements.names (es.foldl (fun (a : Elements) e =>
+          if (db.lookup e.name).isSome then a else if a.any (·.name == e.name) then a else a ++ [⟨e.name, 0⟩]) a)).Nodup := by
+  intro es
+  induction es with
+  | nil => intro a hnd _; exact ⟨fun n => by simp [Elements.names], hnd⟩
+  | cons e es ih =>
+    intro a hnd hun
+    simp only [List.foldl]
+    by_cases hdef : (db.lookup e.name).isSome = true
+    · simp only [hdef, if_true]
+      have := ih a hnd hun
+      refine ⟨fun n => ?_, this.2⟩
+      rw [this.1 n]
+      simp only [Elements.names, List.map_cons, List.mem_cons]
+      constructor
+      · rintro (h | ⟨h1, h2⟩)
+        · exact Or.inl h
+        · exact Or.inr ⟨Or.inr h1, h2⟩
+      · rintro (h | ⟨h1 | h1, h2⟩)
+        · exact Or.inl h
+        · subst h1; rw [h2] at hdef; cases hdef
+        · exact Or.inr ⟨h1, h2⟩
+    · have hnone : db.lookup e.name = none := by
+        cases hc : db.lookup e.name with
+        | none => rfl
+        | some v => rw [hc] at hdef; simp at hdef
+      simp only [hdef, Bool.false_eq_true, if_false]
+      by_cases hany : a.any (·.name == e.name) = true
+      · simp only [hany, if_true]
+        have hmem : e.name ∈ Elements.names a := by
+          obtain ⟨y, hy, hye⟩ := List.any_eq_true.mp hany
+          exact List.mem_map.mpr ⟨y, hy, by simpa using hye⟩
+        have := ih a hnd hun
+        refine ⟨fun n => ?_, this.2⟩
+        rw [this.1 n]
+        simp only [Elements.names, List.map_cons, List.mem_cons]
+        constructor
+        · rintro (h | ⟨h1, h2⟩)
+          · exact Or.inl h
+          · exact Or.inr ⟨Or.inr h1, h2⟩
+        · rintro (h | ⟨h1 | h1, h2⟩)
+          · exact Or.inl h
+          · subst h1; exact Or.inl hmem
+          · exact Or.inr ⟨h1, h2⟩
+      · have hnm : e.name ∉ Elements.names a := by
+          intro hm
+          obtain ⟨y, hy, hye⟩ := List.mem_map.mp hm
+          exact hany (List.any_eq_true.mpr ⟨y, hy, by simp [hye]⟩)
+        simp only [hany, Bool.false_eq_true, if_false]
+        have hnd' : (Elements.names (a ++ [⟨e.name, 0⟩])).Nodup := by
+          simp only [Elements.names, List.map_append, List.map_cons, List.map_nil]
+          exact List.nodup_append.mpr ⟨hnd, by simp, by intro x hx y hy; simp at hy; subst hy; intro hxy; exact hnm (hxy ▸ hx)⟩
+        have hun' : ∀ n ∈ Elements.names (a ++ [⟨e.name, 0⟩]), db.lookup n = none := by
+          intro n hn
+          simp only [Elements.names, List.map_append, List.map_cons, List.map_nil, List.mem_append, List.mem_singleton] at hn
+          rcases hn with hn | hn
+          · exact hun n hn
+          · rw [hn]; exact hnone
+        have := ih _ hnd' hun'
+        refine ⟨fun n => ?_, this.2⟩
+        rw [this.1 n]
+        simp only [Elements.names, List.map_append, List.map_cons, List.map_nil, List.mem_append, List.mem_cons, List.not_mem_nil, or_false]
+        constructor
+        · rintro ((h | h) | ⟨h1, h2⟩)
+          · exact Or.inl h
+          · exact Or.inr ⟨Or.inl h, h ▸ hnone⟩
+          · exact Or.inr ⟨Or.inr h1, h2⟩
+        · rintro (h | ⟨h1 | h1, h2⟩)
+          · exact Or.inl (Or.inl h)
+          · exact Or.inl (Or.inr h1)
+          · exact Or.inr ⟨h1, h2⟩
+
+/-- **the unresolved list is exactly the logged foods the book does not define**, each once -/
+theorem unresolved_eq_logged_minus_book (db : Book) (es : Elements) :
+    (∀ n, n ∈ Elements.names (unresolvedNames db es) ↔ (n ∈ Elements.names es ∧ db.lookup n = none))
+    ∧ (Elements.names (unresolvedNames db es)).Nodup := by
+  have := unresolved_aux db es [] (by simp [Elements.names]) (by simp [Elements.names])
+  refine ⟨fun n => ?_, this.2⟩
+  have h := this.1 n
+  simp only [Elements.names, List.map_nil, List.not_mem_nil, false_or] at h
+  exact h
+
+/-- stats counts one record per heading -/
+theorem stats_counts_headings (evs : List Event) :
+    countNodes evs = (evs.filter (fun ev => match ev with | .node _ => true | _ => false)).length := rfl
+
 end Hrano.C07
